@@ -215,7 +215,11 @@ def run_one(tape, cfg):
         elif term in ("groupby_disk", "groupby_tasks"):
             out.probe(term)
             if term == "groupby_disk":
-                res = b.groupby(bf.mod3, shuffle="disk", npartitions=gnp)
+                # blocksize: elements written to the on-disk store per append
+                gbs = (2 ** 20, 1, 2, 3, 8)[tape.draw(5, "gblocksize")]
+                if gbs < 2 ** 20:
+                    out.probe("groupby_disk_small_blocksize")
+                res = b.groupby(bf.mod3, shuffle="disk", npartitions=gnp, blocksize=gbs)
             else:
                 res = b.groupby(bf.mod3, shuffle="tasks", max_branch=max_branch)
             d = {}
